@@ -26,7 +26,7 @@ class TokenBucket(SingleDevice):
         # current size of the bucket in bytes
         self.current_bucket = bucket_size
         # last time the bucket was updated
-        self.update_time = 0.0
+        self.update_time = env.now
         self.debug = debug
         # used to track if a packet is current being sent
         self.busy = 0
